@@ -50,3 +50,90 @@ package witness
 //@   call torchwood.(*CosignatureSigner).SignSubtree requires [C16] own-cosignature-present: (c_recv == w.s2 || (w.sm != nil && c_recv == w.sm)) && hasOwnSig(n__1, c_recv)
 //@   call torchwood.(*CosignatureSigner).SignSubtree requires [C16] reverified-with-own-key: gOpenedOK[vlist1(iface(cosigVerifierOf(c_recv)))] && gOpenedMsg[vlist1(iface(cosigVerifierOf(c_recv)))] == n__2 && n__2 == ckText(c) + "\n" + noteSigs
 //@   call torchwood.(*CosignatureSigner).SignSubtree requires [C16] signs-request-values: c_origin == c.Origin && c_start == start && c_end == end && c_hash == subtreeHash
+
+// ---- C15: the mirror
+
+//@ pure func tileEntry(d bytes) bytes
+//@ pure func tileRest(d bytes) bytes
+//@ pure func appendEntry(t bytes, e bytes) bytes
+//@ assume func torchwood.ReadTileEntry params tile
+//@   ensures ret2 == nil ==> ret0 == tileEntry(tile) && ret1 == tileRest(tile)
+//@ assume func torchwood.AppendTileEntry params t entry
+//@   ensures ret1 == nil ==> ret0 == appendEntry(t, entry)
+//@ pure func restN(d bytes, k int) bytes
+//@ pure func cutTile(d bytes, k int) bytes
+//@ pure func cutHashes(d bytes, k int) bytes
+//@ axiom restN-0: forall d bytes {restN(d, 0)} :: restN(d, 0) == d
+//@ axiom restN-step: forall d bytes, k int {restN(d, k + 1)} :: k >= 0 ==> restN(d, k + 1) == tileRest(restN(d, k))
+//@ axiom cutTile-0: forall d bytes {cutTile(d, 0)} :: len(cutTile(d, 0)) == 0
+//@ axiom cutTile-step: forall d bytes, k int {cutTile(d, k + 1)} :: k >= 0 ==> cutTile(d, k + 1) == appendEntry(cutTile(d, k), tileEntry(restN(d, k)))
+//@ axiom cutHashes-0: forall d bytes {cutHashes(d, 0)} :: len(cutHashes(d, 0)) == 0
+//@ axiom cutHashes-step: forall d bytes, k int {cutHashes(d, k + 1)} :: k >= 0 ==> cutHashes(d, k + 1) == cutHashes(d, k) + recordHash(tileEntry(restN(d, k)))
+
+//@ func witness.compress props C15
+//@   defines ret1 == nil ==> ret0 == gzipOf(data)
+
+// fetchAndDecompress is an opaque source of (unauthenticated) tile bytes here
+//@ func witness.fetchAndDecompress props C15
+
+//@ func witness.(*Witness).ensureCutTiles props C15
+//@   requires w != nil && w.c != nil && pending != nil && pending.N >= 0
+//@   init gUp == emptyset("set[string]") && gUpTried == emptyset("set[string]")
+//@   call witness.fetchAndDecompress bind wide0 = ret0
+//@   invariant "for range cutW" [C15] cut-is-a-prefix-of-the-wider-tile: 0 <= rangeindex && rangeindex < cutW && data == restN(wide0, rangeindex) && cutData == cutTile(wide0, rangeindex) && cutHashes == cutHashes(wide0, rangeindex)
+//@   call ctlog.Backend.Upload requires [C15] entry-bundle-is-written-first: gUpTried == emptyset("set[string]") ==> (c_key == dataKey && c_data == gzipOf(cutTile(wide0, cutW)))
+//@   call ctlog.Backend.Upload requires [C15] hash-tile-is-written-last: gUpTried != emptyset("set[string]") ==> (gUp[dataKey] && c_key == hashKey && c_data == cutHashes(wide0, cutW))
+//@   returns [C15] success-means-the-cut-tiles-are-there: ret == nil ==> (pending.N % 256 == 0 || (gFetchTried[hashKey] && !gFetchFailed[hashKey]) || (gUp[dataKey] && gUp[hashKey]))
+
+//@ func witness.(*Witness).processAddEntriesCommit props C15
+//@   requires w != nil && w.c != nil && w.sm != nil && pending != nil && pending.N >= 0 && !held(&w.logsMu) && !held(&stateOf(w, pending.Origin).mu)
+//@   init gReplaceTried == 0 && gReplaceOK == 0 && gUp == emptyset("set[string]") && gUpTried == emptyset("set[string]")
+//@   call witness.(*Witness).ensureCutTiles requires [C15] cut-tiles-for-this-checkpoint: c_pending == pending && c_nextEntry == nextEntry && gReplaceTried == 0
+//@   call witness.(*Witness).ensureCutTiles bind cutErr = ret
+//@   call note.Sign requires [C15] signs-the-interpreted-checkpoint-with-the-mirror-key: c_n.Text == ckText(pending.Checkpoint) && len(c_signers) == 1 && c_signers[0] == iface(w.sm)
+//@   call ctlog.LockBackend.Replace requires [C15] frontier-reached-the-checkpoint: nextEntry >= pending.N
+//@   call ctlog.LockBackend.Replace requires [C15] size-never-decreases: pending.N >= mirrorCheckpoint.N && c_old == l.mirrorCheckpoint && held(&l.mu)
+//@   call ctlog.LockBackend.Replace requires [C15] same-origin: pending.Origin == mirrorCheckpoint.Origin && pending.Origin == l.origin
+//@   call ctlog.LockBackend.Replace requires [C15] cut-tiles-ensured-before-the-checkpoint-is-recorded: cutErr == nil
+//@   call ctlog.LockBackend.Replace requires [C15] records-the-signed-note: c_new == signed && gReplaceTried == 0 && gUpTried == emptyset("set[string]")
+//@   call ctlog.Backend.Upload requires [C15] published-only-after-recorded: gReplaceOK == 1 && gLastNew == c_data && c_data == signed && c_key == "mirror/" + originHashOf(pending.Origin) + "/checkpoint"
+//@   returns [C15] cosignature-released-only-after-record-and-publish: ret1 == nil ==> (gReplaceOK == 1 && gLastNew == signed && gUp[backendKey])
+//@   returns [C15] no-signature-bytes-with-an-error: ret1 != nil ==> isnilb(ret0)
+//@   ensures [C15] forget-on-unknown-outcome: (gReplaceTried == 1 && gReplaceOK == 0) ==> stateOf(w, pending.Origin).mirrorCheckpoint == nil
+//@   ensures [C15] at-most-one-cas: gReplaceTried <= 1
+
+//@ pure func twTilePath(t tlog.Tile) string
+//@ assume func torchwood.TilePath params t
+//@   ensures ret == twTilePath(t)
+//@ pure func subtreeHashOf(start int, end int, s LeafSeq) bytes
+//@ assume func torchwood.SubtreeHash params start end r
+//@   ensures (ret1 == nil && typeof(r) == typeid("*torchwood.HashReaderOverlay")) ==> ret0 == subtreeHashOf(start, end, cast(r, "*torchwood.HashReaderOverlay").gseq)
+//@ pure func tileDataOf(t tlog.Tile, s LeafSeq) bytes
+//@ assume func tlog.ReadTileData params t r
+//@   ensures (ret1 == nil && typeof(r) == typeid("*torchwood.HashReaderOverlay")) ==> ret0 == tileDataOf(t, cast(r, "*torchwood.HashReaderOverlay").gseq)
+
+//@ func witness.(*Witness).processAddEntriesPackage props C15
+//@   requires w != nil && w.c != nil && pending != nil && hashReader != nil && !held(&w.logsMu) && !held(&stateOf(w, pending.Origin).mu)
+//@   init gUp == emptyset("set[string]") && gUpTried == emptyset("set[string]")
+//@   call torchwood.CheckSubtree requires [C15] proof-is-for-the-resolved-checkpoint-and-this-range: c_t == pending.N && c_th == pending.Hash && c_start == tileStart && c_end == end && c_p == proof && c_sh == subtreeHash
+//@   call ctlog.Backend.Upload requires [C15] authenticated-before-any-tile-is-written: subtreeOK(proof, pending.N, pending.Hash, tileStart, end, subtreeHash)
+//@   call ctlog.Backend.Upload requires [C15] hash-tiles-come-from-the-authenticated-overlay: !c_opts.Compressed ==> (c_key == "mirror/" + originHashOf(pending.Origin) + "/" + twTilePath(tile) && c_data == tileDataOf(tile, hashReader.gseq))
+//@   call ctlog.Backend.Upload requires [C15] entry-bundle-is-the-data-tile-of-this-package: c_opts.Compressed ==> (tile.L == 0 && dataTile.L == -1 && dataTile.N == tileStart / 256 && dataTile.W == len(entries) && c_key == "mirror/" + originHashOf(pending.Origin) + "/" + twTilePath(dataTile))
+//@   returns [C15] success-only-after-authentication: ret == nil ==> subtreeOK(proof, pending.N, pending.Hash, tileStart, end, subtreeHash)
+//@   ensures [C15] frontier-moves-only-forward-and-only-on-success: stateOf(w, pending.Origin).nextEntry != old(stateOf(w, pending.Origin).nextEntry) ==> (ret == nil && stateOf(w, pending.Origin).nextEntry == end && end > old(stateOf(w, pending.Origin).nextEntry))
+
+//@ func witness.(*Witness).verifyTicket props C15
+//@   call cipher.AEAD.Open requires [C15] ticket-bound-to-mirror-name-and-origin: c_additionalData == byte1(len(w.c.MirrorName) % 256) + bytes(w.c.MirrorName) + bytes(origin)
+//@   call note.Open requires [C15] reverified-with-the-witness-own-cosignature-key: c_msg == checkpointBytes && c_known == vlist1(iface(cosigVerifierOf(w.s2)))
+//@   returns [C15] ticket-is-an-own-cosigned-checkpoint-of-this-origin: ret1 == nil ==> (ret0 != nil && openedBy(n, checkpointBytes, vlist1(iface(cosigVerifierOf(w.s2)))) && ret0.Checkpoint == ckptOf(n.Text) && ret0.Origin == origin && ret0.Bytes == checkpointBytes)
+
+//@ func witness.(*Witness).mirrorConflict props C15
+//@   ensures [C15] always-an-error: ret != nil
+//@   call cipher.AEAD.Seal requires [C15] ticket-seals-the-checkpoint-bound-to-mirror-name-and-origin: c_plaintext == pending.Bytes && c_additionalData == byte1(len(w.c.MirrorName) % 256) + bytes(w.c.MirrorName) + bytes(pending.Origin)
+
+//@ func witness.(*Witness).processAddEntriesMetadata props C15
+//@   requires w != nil && w.c != nil && !held(&w.logsMu) && !held(&stateOf(w, origin).mu)
+//@   call witness.(*Witness).verifyTicket bind tk = ret0
+//@   call witness.(*Witness).verifyTicket requires [C15] ticket-for-this-origin: c_origin == origin && c_ticket == ticket
+//@   returns [C15] resolved-checkpoint-is-pending-mirror-or-verified-ticket: ret1 == nil ==> (ret0 != nil && ret0.N == uploadEnd && (ret0 == pendingCheckpoint || ret0 == mirrorCheckpoint || ret0 == tk))
+//@   returns [C15] frontier-within-the-pending-checkpoint: ret1 == nil ==> (mirrorCheckpoint.N <= nextEntry && nextEntry <= pendingCheckpoint.N && uploadStart <= nextEntry && uploadEnd >= mirrorCheckpoint.N)
